@@ -104,6 +104,17 @@ class D(Driver):
         st, out = conv.convert(doc, ndigits=nd)
         if st != "ok":
             bump(res["counters"], "exception." + conv.exc_key(out)[:40])
+            if "reuses id=" in str(out):
+                # the library's own final gate saw a duplicate id: if the source's ids were unique,
+                # the conversion introduced it
+                try:
+                    src_dups = xmlcanon.references(doc)["dup_ids"]
+                except Exception:
+                    src_dups = True
+                if not src_dups:
+                    res["viol"].append(dict(rule="duplicate_id", sig="duplicate_id:reported_by_final_gate",
+                                            msg=f"the source has unique ids, yet the conversion stops at its final gate with: {str(out)[:300]}\nSOURCE: {doc[:2500]}",
+                                            replay={"kind": "doc", "doc": doc, "ndigits": nd}))
             return
         stage = dict(stagemon.LAST)
         try:
